@@ -22,6 +22,7 @@ import (
 	"github.com/VKCOM/statshouse/internal/data_model/gen2/tlstatshouse"
 	"github.com/VKCOM/statshouse/internal/format"
 	"github.com/VKCOM/statshouse/internal/metajournal"
+	"github.com/VKCOM/statshouse/internal/metarqlite"
 	"github.com/VKCOM/statshouse/internal/pcache"
 	"github.com/VKCOM/statshouse/internal/vkgo/semaphore"
 )
@@ -110,7 +111,9 @@ func (w *w1World) newAggregator(rep *w1Replica) *Aggregator {
 	config := DefaultConfigAggregator()
 	config.KHAddr = rep.khAddr() // non-empty: empty means "pretend success without inserting"
 	config.Cluster = "w1"
-	config.DisableRemoteConfig = true
+	// the remote-config path (goTicker reads the description of the metric statshouse_aggregator_remote_config
+	// from the metric storage every second) is live only in the runs that change the short window at run time
+	config.DisableRemoteConfig = !w.cfg.remoteWindow
 	config.AutoCreate = false
 	config.RecentInserters = w.cfg.inserters
 	config.ShardByMetricShards = 1
@@ -171,6 +174,10 @@ func (w *w1World) newAggregator(rep *w1Replica) *Aggregator {
 		},
 	}
 	a.metricStorage = w1MetricStorage()
+	a.metricMetaLoader = metarqlite.NewRQliteLoader("", metarqlite.DefaultMetaTimeout, nil) // passive object; the remote-config update calls its SetConfig
+	if w.remoteDesc != "" {
+		w1ApplyRemoteConfig(a, w.remoteDesc, w.remoteVersion) // a new process finds the journal as it is now
+	}
 	agentConfig := agent.DefaultConfig()
 	agentConfig.Cluster = config.Cluster
 	agentConfig.HistoricWindow = uint(w.cfg.window) // production: agent remote config, same on both sides
@@ -243,6 +250,29 @@ func w1FindLongpoll(a *Aggregator, lh rpc.LongpollHandle) (where string, bucketT
 		}
 	}
 	return "none", 0, oldest, newest
+}
+
+// w1ApplyRemoteConfig delivers a journal event to this aggregator's metric storage: the metric whose
+// description the aggregator reads its remote configuration from, as production delivers it.
+func w1ApplyRemoteConfig(a *Aggregator, description string, version int64) {
+	mv := format.MetricMetaValue{MetricID: 1100, Name: format.StatshouseAggregatorRemoteConfigMetric, Kind: format.MetricKindCounter,
+		Description: description, Resolution: 1, Weight: 1, Version: version, Tags: []format.MetricMetaTag{{}}}
+	ev, err := metajournal.EventFromMetricMeta(mv, "")
+	if err != nil {
+		panic(err)
+	}
+	a.metricStorage.ApplyEvent([]tlmetadata.Event{ev})
+	if m := a.metricStorage.GetMetaMetricByName(format.StatshouseAggregatorRemoteConfigMetric); m == nil || m.Description != description {
+		panic("w1 harness: the remote-config metric was not accepted by MetricsStorage")
+	}
+}
+
+// w1ShortWindow: the short window this aggregator process works with right now (white-box; used by
+// scheduling heuristics only).
+func w1ShortWindow(a *Aggregator) int {
+	a.configMu.RLock()
+	defer a.configMu.RUnlock()
+	return a.configR.ShortWindow
 }
 
 // w1InsertsDisabled: the aggregator is in shutdown (DisableNewInsert was called).
